@@ -147,10 +147,12 @@ check_version(JSON_Object *meta)
 		return -1;
 	}
 
-	int version = (int) json_number(version_val);
+	/* Compare before truncating: 3.9 is not version 3 */
+	double version = json_number(version_val);
+	double expected = (double) OVNI_METADATA_VERSION;
 
-	if (version != OVNI_METADATA_VERSION) {
-		err("metadata version mismatch %d (expected %d)",
+	if (version < expected || version > expected) {
+		err("metadata version mismatch %g (expected %d)",
 				version, OVNI_METADATA_VERSION);
 		return -1;
 	}
